@@ -315,3 +315,30 @@ func AllAtoms(fn *ssa.Function) map[string]bool {
 	walk(fn, 0)
 	return out
 }
+
+// topFunc: the named function a (possibly nested) closure belongs to.
+func topFunc(fn *ssa.Function) *ssa.Function {
+	for fn.Parent() != nil {
+		fn = fn.Parent()
+	}
+	return fn
+}
+
+// InstrsInline calls f on every instruction of fn and, for calls of helpers
+// that did not exist at review time (inline.go), on the helpers' instructions
+// as well (depth-limited): instruction-level rules about what a reviewed
+// function allocates or does survive the extraction of a helper.
+func InstrsInline(fn *ssa.Function, f func(ssa.Instruction)) {
+	var walk func(g *ssa.Function, depth int)
+	walk = func(g *ssa.Function, depth int) {
+		Instrs(g, func(in ssa.Instruction) {
+			f(in)
+			if call, ok := in.(*ssa.Call); ok && depth < 3 {
+				if h := call.Common().StaticCallee(); h != nil && h != g && inlineableSites(h) {
+					walk(h, depth+1)
+				}
+			}
+		})
+	}
+	walk(fn, 0)
+}
